@@ -806,7 +806,7 @@ def add_join_repeat(rng, p):
     derived = {h[0] for r in p["rules"] for h in r["heads"]}
     qs = [r for r in qs if r[0] not in derived] or qs
     q = rng.choice([r for r in qs if r[1] >= 3] or qs) if rng.random() < 0.5 else rng.choice(qs)
-    others = [r for r in rels if r[0] != q[0]]
+    others = [r for r in rels if r[0] != q[0] and r[1] >= 1]
     others = [r for r in others if r[0] not in derived] or others
     pr = rng.choice(others) if others and rng.random() < 0.9 else q
     top = max(level.values()) if level else 0
